@@ -39,6 +39,11 @@ def cases(tier):
     for m_ in (12, 16):
         for thr_ in (1e-12, 1e-6):
             yield {'units': True, 'm': m_, 'thr': thr_, 'd': 2, 'ws': [], 'iset': []}
+    # almost reversible pairs: every transition a_j -> b_j is also used backwards from a re-measured copy of b_j (relative noise eps):
+    # the reduced matrix is symmetric up to ~eps but NOT symmetric; well-conditioned 4-function basis, compared at 1e-10
+    for N_ in (40, 200):
+        for eps_ in (5e-6, 5e-5):
+            yield {'nearrev': True, 'N': N_, 'eps': eps_, 'd': 2, 'm': 3 * N_, 'ws': [], 'iset': []}
     # a singular value of Psi_x only 1.4 times above the routine's internal relative cut of 1e-3, next to three equal dominant
     # ones (indicator features with disjoint supports, so the spectrum is known in closed form)
     for per in (2, 3):
@@ -128,9 +133,49 @@ def run_units(case, seed):
     return r
 
 
+def run_nearrev(case, seed):
+    import scikit_tt.data_driven.transform as tdt
+    import scikit_tt.data_driven.tedmd as tedmd
+    r = R(case)
+    rng = rng_for(case, seed)
+    N, eps = case['N'], case['eps']
+    a = rng.standard_normal((2, N)) + 0.5
+    b = 0.5 * a + 0.8 * rng.standard_normal((2, N)) + 0.3
+    bp = b * (1 + eps * rng.standard_normal((2, N)))
+    data = np.hstack([a, b, bp])
+    xi = np.concatenate([np.arange(0, N), np.arange(2 * N, 3 * N)]); yi = np.concatenate([np.arange(N, 2 * N), np.arange(0, N)])
+    basis = [[tdt.ConstantFunction(i), tdt.Identity(i)] for i in range(2)]
+    P = np.array([np.kron([1.0, data[0, j]], [1.0, data[1, j]]) for j in range(data.shape[1])]).T
+    Px, Py = P[:, xi], P[:, yi]
+    sv = np.linalg.svd(Px, compute_uv=False)
+    k = int(np.sum(sv / sv[0] > 1e-3))
+    Kt = np.linalg.pinv(Px.T, rcond=1e-3) @ Py.T
+    w = np.linalg.eigvals(Kt)
+    w = w[np.argsort(-np.abs(w))][:k]
+    w = w[np.argsort(np.abs(w - 1))]
+    r.nontrivial = True
+    if np.max(np.abs(w.imag)) > 1e-12 or k != 4 or np.min(np.abs(np.diff(np.sort(np.abs(w - 1))))) < 1e-3:
+        r.skipped += 1
+        return r
+    with r.op('amuset_hosvd:almost-reversible:call'):
+        with quiet():
+            ev, et = tedmd.amuset_hosvd(data, xi, yi, basis, threshold=0)
+        ev = np.asarray(ev)
+        if r.true('amuset_hosvd:almost-reversible:eigenvalue-count', ev.shape == (k,), '%s' % (ev.shape,)):
+            r.true('amuset_hosvd:almost-reversible:eigenvalues', np.max(np.abs(ev - np.real(w))) <= 1e-10 * sv[0] / sv[k - 1],
+                   'max deviation %.3e from the dense EDMD eigenvalues (asymmetry of the reduced matrix ~%g)' % (np.max(np.abs(ev - np.real(w))), eps))
+            if meta_problem(et) is None:
+                Xi = dn(et).reshape(-1, k)
+                res = max(np.linalg.norm(Kt @ Xi[:, j] - ev[j] * Xi[:, j]) / np.linalg.norm(Xi[:, j]) for j in range(k))
+                r.true('amuset_hosvd:almost-reversible:eigen-equation', res <= 1e-10 * sv[0] / sv[k - 1], 'residual %.3e' % res)
+    return r
+
+
 def run_case(case, seed):
     if case.get('units'):
         return run_units(case, seed)
+    if case.get('nearrev'):
+        return run_nearrev(case, seed)
     from scikit_tt.data_driven import tedmd
     r = R(case)
     rng = rng_for({k: case[k] for k in ('d', 'm', 'ws')}, seed)
